@@ -161,6 +161,10 @@ func (H) Gen(p string, seed uint64, tier string) *hx.Case {
 			}
 		}
 		ops = append(ops, hx.J(o))
+		if o.Op == "invalid" && r.Chance(0.4) {
+			// the same block arrives again (peers resend what a failed reorganisation has dropped)
+			ops = append(ops, hx.J(Op{ID: 1000 + i, Op: "add", B: o.B}))
+		}
 	}
 	return &hx.Case{Cfg: hx.J(cfg), Ops: ops}
 }
@@ -219,6 +223,7 @@ type mblock struct {
 	addPhase int
 	invPhase int
 	trPhase  int
+	invQueued bool // marked invalid while still queued (the store dropped it)
 }
 
 type readRec struct {
@@ -439,7 +444,13 @@ func (r *run) writerOp(o *Op) {
 	switch o.Op {
 	case "add", "readd":
 		if b.invalid {
-			return // re-adding a block that was marked invalid is outside the property
+			if !b.invQueued || o.Op == "readd" {
+				return // re-adding a block whose WRITTEN record was flagged invalid is outside the property
+			}
+			// it was dropped while still queued ("never write it"): the store has forgotten it, this is a fresh add
+			b.invalid, b.added, b.trusted, b.invQueued = false, false, false, false
+			b.addPhase, b.invPhase = -1, -1
+			r.out.Probe("readd_after_invalid_while_queued", 1)
 		}
 		blk := &btc.Block{Raw: b.raw, Hash: b.hash, TxCount: int(b.spec.Txs)}
 		tr := b.spec.Trusted
@@ -481,6 +492,7 @@ func (r *run) writerOp(o *Op) {
 		ret := simrt.Stamp()
 		r.hist = append(r.hist, porcupine.Operation{ClientId: 0, Input: hin{"invalid", bi}, Call: int64(call), Output: hout{}, Return: int64(ret)})
 		b.invalid, b.invPhase = true, r.phase
+		b.invQueued = !b.flushed
 		if b.flushed {
 			r.out.Probe("invalid_written_block", 1)
 		} else {
